@@ -3,6 +3,7 @@
 
 import sys
 import os
+import re
 import json
 import argparse
 from pel.datastream import DataStream
@@ -183,11 +184,17 @@ def buildOutput(sections: list, out: OrderedDict):
 def prettyPrint(Mdata: str, desiredSpace: int = 34) -> str:
     # After index of these 2 characters ":  need to add desired space.
     CHARACTER_SPACE = 2
+    # A "key": line of json.dumps(indent=...) output: indentation, one
+    # complete JSON string (escapes honoured), then the colon.  Only such a
+    # key is aligned; a '":' inside a key, a string value or an array element
+    # must be left alone.
+    keyPattern = re.compile(r'\s*"(?:[^"\\]|\\.)*":')
     lines = Mdata.split("\n")
     for i in range(len(lines)):
         line = lines[i]
-        if "\":" in line and "{" not in line:
-            ind = line.index("\":")
+        match = keyPattern.match(line)
+        if match and "{" not in line:
+            ind = match.end() - CHARACTER_SPACE
             spaces = (desiredSpace - ind) * " "    # Calculating spaces needed to add to get the desired spacing.
             ind += CHARACTER_SPACE
             lines[i] = line[:ind] + spaces + line[ind:]
